@@ -168,7 +168,7 @@ macro_rules! fixed_mul_div {
                     0x7FFFFFFF
                 };
                 Self(if sign < 0 {
-                    -(result as i32)
+                    (result as i32).wrapping_neg()
                 } else {
                     result as i32
                 })
@@ -199,19 +199,25 @@ macro_rules! fixed_mul_div {
                 let mut a = self.0;
                 let mut b = other.0;
                 if a < 0 {
-                    a = -a;
+                    a = a.wrapping_neg();
                     sign = -1;
                 }
                 if b < 0 {
-                    b = -b;
+                    b = b.wrapping_neg();
                     sign = -sign;
                 }
+                // the magnitudes are taken as u32 so that i32::MIN is handled
+                let (a, b) = (a as u32 as u64, b as u32 as u64);
                 let q = if b == 0 {
                     0x7FFFFFFF
                 } else {
-                    ((((a as u64) << 16) + ((b as u64) >> 1)) / (b as u64)) as u32
+                    (((a << 16) + (b >> 1)) / b) as u32
                 };
-                Self(if sign < 0 { -(q as i32) } else { q as i32 })
+                Self(if sign < 0 {
+                    (q as i32).wrapping_neg()
+                } else {
+                    q as i32
+                })
             }
         }
 
